@@ -1,0 +1,117 @@
+//go:build verif && !windows
+
+// Contracts for the unix pager and the rollback-journal check (package db). Comments only.
+// OS model (trusted, DESIGN 3.4): POSIX record locks as SQLite's unix VFS uses them.
+//   pending byte 0x40000000, reserved byte 0x40000001, shared range 0x40000002 + 510.
+//   A peer connection in state RESERVED/PENDING/EXCLUSIVE write-locks the reserved byte; in
+//   PENDING/EXCLUSIVE the pending byte; in EXCLUSIVE the shared range. Closing any descriptor of the
+//   file drops every lock this process holds on it.
+
+package db
+
+//@ type-invariant db.filePager = self.f != nil && self.mm != nil && (lk_shared <==> self.readLock != nil) && (self.readLock != nil ==> self.readLock.Start == 1073741826 && self.readLock.Len == 510 && self.readLock.Whence == 0)
+
+//@ extern (*os.File).Fd
+//@   pure
+
+// fcntl(F_SETLK / F_GETLK) on the database file. cmd: F_GETLK = 5, F_SETLK = 6; type: F_RDLCK = 0,
+// F_WRLCK = 1, F_UNLCK = 2 (linux). Anything outside the five listed uses leaves the lock state unknown.
+//@ extern golang.org/x/sys/unix.FcntlFlock
+//@   modifies lk_shared lk_pending golang.org/x/sys/unix.Flock_t.Type
+//@   requires lk != nil
+//@   ensures [pending-lock] cmd == 6 && old(lk.Type) == 0 && lk.Whence == 0 && lk.Start == 1073741824 && lk.Len == 1 ==> (err == nil <==> peer_state < 3) && (err == nil ==> lk_pending) && (err != nil ==> lk_pending == old(lk_pending)) && lk_shared == old(lk_shared) && lk.Type == old(lk.Type)
+//@   ensures [shared-lock] cmd == 6 && old(lk.Type) == 0 && lk.Whence == 0 && lk.Start == 1073741826 && lk.Len == 510 && old(lk_pending) ==> (err == nil <==> peer_state < 4) && (err == nil ==> lk_shared) && (err != nil ==> lk_shared == old(lk_shared)) && lk_pending == old(lk_pending) && lk.Type == old(lk.Type)
+//@   ensures [pending-unlock] cmd == 6 && old(lk.Type) == 2 && lk.Whence == 0 && lk.Start == 1073741824 && lk.Len == 1 ==> !lk_pending && lk_shared == old(lk_shared) && lk.Type == old(lk.Type)
+//@   ensures [shared-unlock] cmd == 6 && old(lk.Type) == 2 && lk.Whence == 0 && lk.Start == 1073741826 && lk.Len == 510 ==> !lk_shared && lk_pending == old(lk_pending) && lk.Type == old(lk.Type)
+//@   ensures [probe] cmd == 5 && old(lk.Type) == 1 && lk.Whence == 0 && lk.Start == 1073741825 && lk.Len == 1 ==> err == nil && (lk.Type != 2 <==> peer_state >= 2) && lk_shared == old(lk_shared) && lk_pending == old(lk_pending)
+
+// mmap.Open opens and closes its own descriptor of the file: every POSIX lock the process holds on
+// the file (this handle's and any other handle's) is dropped.
+//@ extern golang.org/x/exp/mmap.Open
+//@   modifies lk_shared lk_pending other_shared alloc
+//@   ensures !lk_shared && !lk_pending && !other_shared
+//@   ensures err == nil ==> r0 != nil
+
+//@ extern (*golang.org/x/exp/mmap.ReaderAt).ReadAt
+//@   modifies M:bv8
+//@   ensures 0 <= r0 && r0 <= len(p)
+
+//@ extern (*golang.org/x/exp/mmap.ReaderAt).Close
+//@   pure
+
+//@ extern os.Open
+//@   modifies alloc jr_pos
+//@   ensures err == nil ==> r0 != nil
+//@   ensures [exists] (err == nil <==> jr_exists) && (err == nil ==> jr_pos == 0)
+
+//@ extern os.IsNotExist
+//@   pure
+//@   ensures [notexist] result <==> !jr_exists
+
+//@ extern (*os.File).Close
+//@   pure
+
+// Read on a regular file: as many bytes as requested or as remain; io.EOF only when none remain.
+//@ extern (*os.File).Read
+//@   modifies M:bv8 jr_pos
+//@   ensures [count] 0 <= n && n <= len(b) && (err == nil ==> n == ite(len(b) <= jr_len - old(jr_pos), len(b), jr_len - old(jr_pos))) && (err == nil ==> jr_pos == old(jr_pos) + n)
+//@   ensures [eof] (jr_len - old(jr_pos) == 0 && len(b) > 0) ==> err != nil
+//@   ensures [some] (jr_len - old(jr_pos) > 0 || len(b) == 0) ==> err == nil
+//@   ensures [data] err == nil ==> (forall k int :: 0 <= k && k < n ==> b[k] == byte_at(jr_bytes, 0, old(jr_pos) + k))
+
+// Journal file model: jr_exists, jr_len and jr_bytes describe the file named by the journal path;
+// jr_pos is the read position of the handle opened on it.
+//@ ghost jr_exists bool
+//@ ghost jr_len bv64
+//@ ghost jr_pos bv64
+//@ ghost jr_bytes (Array (_ BitVec 64) (_ BitVec 8))
+
+// jrnl_hot(bytes, n): the journal has a complete first header: 28 bytes, the magic, a sector size in
+// [512, 65536], and at least one full sector (SQLite's readJournalHdr needs all of these before it
+// replays anything; see DESIGN C09 for sector sizes 32..256).
+//@ smt journal
+//@ (define-fun jr_sector ((a (Array (_ BitVec 64) (_ BitVec 8)))) (_ BitVec 64) ((_ sign_extend 32) (be32 a #x0000000000000014)))
+//@ (define-fun jrnl_hot ((a (Array (_ BitVec 64) (_ BitVec 8))) (n (_ BitVec 64))) Bool (and (bvsge n #x000000000000001c) (= (select a #x0000000000000000) #xd9) (= (select a #x0000000000000001) #xd5) (= (select a #x0000000000000002) #x05) (= (select a #x0000000000000003) #xf9) (= (select a #x0000000000000004) #x20) (= (select a #x0000000000000005) #xa1) (= (select a #x0000000000000006) #x63) (= (select a #x0000000000000007) #xd7) (bvsge (jr_sector a) #x0000000000000200) (bvsle (jr_sector a) #x0000000000010000) (bvsge n (jr_sector a))))
+
+//@ func db.validJournal
+//@   props C09 C05
+//@   modifies alloc M:bv8 jr_pos
+//@   requires 0 <= jr_len && jr_len <= 1099511627776
+//@   requires journalMagic[0] == 217 && journalMagic[1] == 213 && journalMagic[2] == 5 && journalMagic[3] == 249 && journalMagic[4] == 32 && journalMagic[5] == 161 && journalMagic[6] == 99 && journalMagic[7] == 215
+//@   ensures [absent] !jr_exists ==> !r0 && err == nil
+//@   ensures [decision] jr_exists ==> err == nil && (r0 <==> jrnl_hot(jr_bytes, jr_len))
+
+//@ func (*db.filePager).RLock
+//@   props C06 C07
+//@   modifies lk_shared lk_pending db.filePager.readLock golang.org/x/sys/unix.Flock_t.Type golang.org/x/sys/unix.Flock_t.Whence golang.org/x/sys/unix.Flock_t.Start golang.org/x/sys/unix.Flock_t.Len golang.org/x/sys/unix.Flock_t.Pid alloc
+//@   requires f != nil && !lk_pending
+//@   ensures [held] err == nil ==> lk_shared && !lk_pending
+//@   ensures [failed] err != nil ==> lk_shared == old(lk_shared) && !lk_pending
+//@   ensures [yield] peer_state >= 3 ==> err != nil
+//@   ensures [admit] peer_state <= 2 && !old(lk_shared) ==> err == nil
+
+//@ func (*db.filePager).RUnlock
+//@   props C06
+//@   modifies lk_shared db.filePager.readLock golang.org/x/sys/unix.Flock_t.Type
+//@   requires f != nil
+//@   ensures [released] !lk_shared
+//@   ensures [pending] lk_pending == old(lk_pending)
+
+//@ func (*db.filePager).CheckReservedLock
+//@   props C07 C09
+//@   modifies alloc golang.org/x/sys/unix.Flock_t.Type golang.org/x/sys/unix.Flock_t.Whence golang.org/x/sys/unix.Flock_t.Start golang.org/x/sys/unix.Flock_t.Len golang.org/x/sys/unix.Flock_t.Pid
+//@   requires f != nil
+//@   ensures [probe] err == nil && (r0 <==> peer_state >= 2)
+
+// page: a fresh buffer of one page; the lock state is not touched (no descriptor is opened or closed).
+//@ func (*db.filePager).page
+//@   props C06 C08 C05
+//@   modifies M:bv8 alloc
+//@   requires f != nil && 0 <= pagesize && pagesize <= 65536
+//@   ensures [buffer] len(r0) == pagesize && fresh(r0)
+
+// newFilePager: must not disturb the locks other handles of this process hold on the file.
+//@ func db.newFilePager
+//@   props C06
+//@   modifies alloc heap lk_shared lk_pending jr_pos
+//@   ensures err == nil ==> r0 != nil
